@@ -68,39 +68,55 @@ int main(void)
     int rc = liberasurecode_encode(d, n_data ? NULL : (char *)src, LEN, n_ed ? NULL : &ed, n_ep ? NULL : &ep, n_fl ? NULL : &fl);
     CHECK(rc < 0, "encode with an invalid argument must return a negative code");
 #elif MODE == 3 || MODE == 4
+    /* -DVAR=0: descriptor / pointer combinations (counts and lengths valid and concrete)
+     *       1: fragment count symbolic in [-5,0]     2: fragment length symbolic in [0,79]
+     *       3: (reconstruct) destination -DDESTV outside 0..k+m-1
+     * keeping the valid positions concrete keeps the (excluded) all-valid path cheap */
     char *frags[N];
-    for (int i = 0; i < N; i++) {
+    int nfr = 0;
+    for (int i = (MODE == 4 ? 1 : 0); i < N; i++) {
         uint8_t *b = malloc(FLEN);
         ASSUME(b != NULL);
         ref_fragment(&cfg, src, LEN, i, b, SIZE);
-        frags[i] = (char *)b;
+        frags[nfr++] = (char *)b;
     }
-    int n_fr = vin_bool(), n_out = vin_bool(), n_len = vin_bool();
-    int nf = vin_range(-2, N);
-    uint64_t flen = vin();
-    ASSUME(flen < 80 || flen == FLEN);
+    int n_fr = 0, n_out = 0, n_len = 0;
+    int nf = nfr;
+    uint64_t flen = FLEN;
+#if VAR == 0
+    n_fr = vin_bool(); n_out = vin_bool(); n_len = vin_bool();
+    ASSUME(bad_desc || n_fr || n_out || n_len);
+#elif VAR == 1
+    nf = vin_range(-5, 0);
+    ASSUME(!bad_desc);
+#elif VAR == 2
+    flen = (uint64_t)vin_range(0, 79);
+    ASSUME(!bad_desc);
+#else
+    ASSUME(!bad_desc);
+#endif
 #if MODE == 3
     char *out; uint64_t outlen;   /* uninitialised */
     int force = vin_bool();
-    ASSUME(bad_desc || n_fr || n_out || n_len || nf <= 0 || flen < 80);
     int rc = liberasurecode_decode(d, n_fr ? NULL : frags, nf, flen, force, n_out ? NULL : &out, n_len ? NULL : &outlen);
     CHECK(rc < 0, "decode with an invalid argument must return a negative code");
 #else
-    int dest = vin_int();
+#ifndef DESTV
+#define DESTV 0
+#endif
+    int dest = DESTV;
     uint8_t *outf = malloc(FLEN);
     ASSUME(outf != NULL);
-    int oob = dest < 0 || dest >= N;
-#ifdef EXCL_DEST
-    ASSUME(!oob);
-#endif
-    ASSUME(nf >= 0);
-    ASSUME(bad_desc || n_fr || n_out || oob || flen < 80);
-    ASSUME(flen == FLEN || nf == 0 || bad_desc || n_fr || n_out);   /* short length with fragments present: see DESIGN (reconstruct has no length check; only the copy length is affected) */
+    ASSUME(VAR != 0 || !n_len);
     int rc = liberasurecode_reconstruct_fragment(d, n_fr ? NULL : frags, nf, flen, dest, n_out ? NULL : (char *)outf);
-    if (bad_desc || n_fr || n_out || oob) CHECK(rc < 0, "reconstruct with an invalid argument must return a negative code");
+#if VAR == 1
+    CHECK(rc < 0, "reconstruct with no fragments must return a negative code");
+#elif VAR != 2
+    CHECK(rc < 0, "reconstruct with an invalid argument must return a negative code");
+#endif
     free(outf);
 #endif
-    for (int i = 0; i < N; i++) free(frags[i]);
+    for (int i = 0; i < nfr; i++) free(frags[i]);
 #elif MODE == 5
     int r1[3] = { 0, -1, -1 }, x1[3] = { -1, -1, -1 }, need[N + 2];
     int n_r = vin_bool(), n_x = vin_bool(), n_n = vin_bool();
